@@ -141,6 +141,7 @@ def random_history(rng, cfg, n_ops, wide, aliases=True):
         ('touch', 5), ('incr', 7), ('decr', 3), ('pop', 6), ('delete', 5), ('delitem', 3), ('len', 2),
         ('iter', 1), ('reversed', 1), ('iterkeys', 1), ('peekitem', 2), ('expire', 1.5), ('evict', 1.5),
         ('clear', 0.15), ('stats', 1), ('push', 4), ('pull', 3), ('peek', 2), ('ADV', 10), ('cull', 0.7),
+        ('expire_now', 0.8), ('tagindex', 0.4), ('reset_cull', 0.3),
     ]
     names = [w[0] for w in weights]
     ws = [w[1] for w in weights]
@@ -222,6 +223,13 @@ def random_history(rng, cfg, n_ops, wide, aliases=True):
             yield (op, (), kw)
         elif op == 'expire':
             yield (op, (), {})
+        elif op == 'expire_now':
+            # explicit `now`: in the past (nothing to do), slightly ahead, far ahead; 0 means "use the clock"
+            yield ('expire', (), {'now': ('NOW+', gen.pick(rng, [-100.0, 0.25, 3.0, 1e4]))} if rng.random() < 0.85 else {'now': 0})
+        elif op == 'tagindex':
+            yield (gen.pick(rng, ['create_tag_index', 'drop_tag_index']), (), {})
+        elif op == 'reset_cull':
+            yield ('reset', ('cull_limit', gen.pick(rng, [0, 1, 10])), {})
         elif op == 'evict':
             yield (op, (tag(),), {})
         elif op == 'stats':
